@@ -14,3 +14,9 @@ Definition paints (r : elem) : bool :=
       match sget st p_Visibility with Some (VEnum x) => negb (x =? e_VisibilityType_hidden) | _ => true end
   end.
 Definition render (rs : list elem) : list elem := filter paints rs.
+
+(* a snapshot that is obtained from another one by leaving out whole regions *)
+Inductive omits_regions : list elem -> list elem -> Prop :=
+| omits_nil : omits_regions [] []
+| omits_skip : forall r a b, omits_regions a b -> omits_regions a (r :: b)
+| omits_keep : forall r a b, omits_regions a b -> omits_regions (r :: a) (r :: b).
